@@ -14,7 +14,8 @@ Stage "pump" (one evaluation = one fresh environment):
           parsing fault; subscriber that *takes* the flow and releases it one pump later; real ``wait_for()`` and
           ``subscribe_async()`` waiters on the session-level and on the region-level http_message_handler -- with the default
           take mode they own the flow until they resume() it one pump later, with take=False they must not delay the hand-back
-          (every response flow x 8 waiter kinds x {ignore, take_later1, handled})
+          (every response flow x 8 waiter kinds x {ignore, take_later1, handled}); wait_for() waiters that ended by timeout,
+          by cancellation or by an earlier flow *before* the flow under test arrives own nothing (every response flow x 6)
   addon behaviours  ignore | take | take+resume inside the hook | take, resume after 1 / 2 further pumps | resume twice inside
           the hook | take, resume later, resume again | inject a response | rewrite the URL | clear can_stream | return True |
           resume then (inject a response +) preempt later | take+resume in the hook, preempt one pump later | take, resume
@@ -40,7 +41,9 @@ Stage "state": HippoHTTPFlow.from_state(flow.get_state(), session_manager), dire
   (status, headers, body) are unchanged; plus the two-phase check through the real pumps: the cap data an addon sees in
   handle_http_response is the cap data resolved in the request phase (same objects), and the flow handed back after the
   request leg *and* after the response leg carries the cap name / type / base URL / session id / region address the harness'
-  own cap table prescribes -- for viewer, browser and X-Hippo-Injected (the proxy's own) requests alike.
+  own cap table prescribes -- for viewer, browser and X-Hippo-Injected (the proxy's own) requests alike, also when the
+  incoming state (a replayed flow) already carries a stale cap_data_ser that no longer matches what the URL resolves to
+  (another cap / session / region, or nothing at all after a TEMPORARY cap was consumed).
 Stage "wrapper": requests to GetMesh2 / GetTexture / ViewerAsset ``...ProxyWrapper`` URLs x {redirect strategy, after a direct
   asset-server request switched the manager to the URL-rewrite strategy} x can_stream {kept, cleared by either addon} x
   {addon1, addon2 rewrites} x {path+query rewritten on the wrapper host, whole URL rewritten}: whichever form the hand-back
@@ -343,6 +346,41 @@ class Waiter:
         self.board.append((self.name, "resumed-again" if already else "resumed"))
 
 
+def _stub_message(name: str):
+    class _Msg:
+        def __init__(self):
+            self.name, self.id = name, "earlier-flow"
+
+        def take(self):
+            return self
+    return _Msg()
+
+
+def install_dead_waiter(handler, loop, how: str):
+    """A wait_for() whose waiter is gone *before* the flow under test arrives: nobody owns flows on its behalf any more."""
+    if how == "timedout":
+        fut = handler.wait_for(("*",), timeout=0.5)
+        loop.advance(1.0)
+        if not fut.done() or fut.cancelled() or not isinstance(fut.exception(), Exception):
+            raise HarnessError("wait_for(timeout=) did not time out under the virtual clock")
+    elif how == "cancelled":
+        fut = handler.wait_for(("*",))
+        fut.cancel()
+        loop.run_ready()
+    elif how == "satisfied":
+        fut = handler.wait_for(("*",))
+        handler.handle(_stub_message("EarlierCap"))
+        loop.run_ready()
+        if not fut.done():
+            raise HarnessError("wait_for() was not satisfied by the earlier message")
+    else:
+        raise KeyError(how)
+    return fut
+
+
+#: waiters that ended (by timeout / cancellation / an earlier flow) before the flow under test: (level, how)
+DEAD_WAITERS = {f"{lvl}_wait_{how}": (lvl, how) for lvl in ("sess", "reg") for how in ("timedout", "cancelled", "satisfied")}
+
 #: (level, api, take) of the waiter kinds; names are usable in a case's fault tuple
 WAITERS = {
     "sess_wait": ("session", "wait_for", None), "reg_wait": ("region", "wait_for", None),
@@ -398,6 +436,7 @@ class World:
                 region.http_message_handler.subscribe("*", rs)
         self.resolve_fail_for: Optional[str] = None
         self.waiters: List[Waiter] = []
+        self.dead_futs: List[Any] = []
         self.asset_fail = False
         self.fired: Dict[str, int] = {}
 
@@ -475,6 +514,12 @@ def _install_faults(w: World, fid: str, event: str, faults: Tuple[str, ...], si:
             w.sess_subs[si].target, w.sess_subs[si].mode = fid, "take"
         elif f == "reg_sub_take":
             w.reg_subs[(si, ri)].target, w.reg_subs[(si, ri)].mode = fid, "take"
+        elif f in DEAD_WAITERS:
+            lvl, how = DEAD_WAITERS[f]
+            sess = env.sessions[si]
+            handler = sess.http_message_handler if lvl == "sess" else sess.regions[ri].http_message_handler
+            w.dead_futs.append(install_dead_waiter(handler, env.loop, how))
+            w.fired[f] = 1
         elif f in WAITERS:
             level, api, take = WAITERS[f]
             sess = env.sessions[si]
@@ -977,6 +1022,10 @@ def evaluate_state_case(case) -> Tuple[List[Dict[str, Any]], Any, bool]:
             st = pickle.loads(pickle.dumps(st))
         flow2 = HippoHTTPFlow.from_state(st, sm)
         cd2 = flow2.cap_data
+        if not isinstance(cd2, CapData):
+            viol.append({"clause": "state-cap-data-missing", "site": "HippoHTTPFlow.get_state/from_state" + ("[pickled]" if how == "pickle" else ""),
+                         "detail": f"{kind}/s{si}r{ri}/{flag}/{mods}: cap data {cd!r} became {cd2!r}"})
+            cd2 = CapData(None, None, None, None, None)     # compare field by field below
         after = {
             "cap-name": cd2.cap_name, "cap-type": cd2.type, "cap-base-url": cd2.base_url,
             "session-identity": cd2.session and cd2.session(), "region-identity": cd2.region and cd2.region(),
@@ -1033,12 +1082,17 @@ def expected_routing(w: World, kind: str, si: int, ri: int, flag: str, leg: str)
 def check_routing(viol, cb_item, exp, what: str, leg: str):
     if exp is None:
         return
-    ser = HTTPFlow.from_state(pickle.loads(pickle.dumps(cb_item[2]))).metadata.get("cap_data_ser")
+    try:
+        ser = HTTPFlow.from_state(pickle.loads(pickle.dumps(cb_item[2]))).metadata.get("cap_data_ser")
+        fields = tuple(getattr(ser, n, "<missing>") for n in ("cap_name", "type", "base_url", "session_id", "region_addr")) \
+            if ser is not None else None
+    except Exception as e:  # noqa: an unreadable state is a finding, not a harness fault
+        ser, fields = "<unreadable>", repr(e)
     if exp[0] is None:
-        got = None if not ser else tuple(ser)
-        ok = not ser or ser.cap_name is None
+        got = fields
+        ok = ser is None or (fields is not None and fields[0] is None)
     else:
-        got = (ser.cap_name, ser.type, ser.base_url, ser.session_id, ser.region_addr) if ser is not None else None
+        got = fields
         ok = got == exp
     if not ok:
         viol.append({"clause": f"routing-metadata-{leg}-leg", "site": "callback state cap_data_ser",
@@ -1047,7 +1101,8 @@ def check_routing(viol, cb_item, exp, what: str, leg: str):
 
 def evaluate_twophase_case(case) -> Tuple[List[Dict[str, Any]], Any, bool]:
     """case = ("twophase", kind, si, ri, flag): request pump then response pump; addon1 only observes."""
-    _, kind, si, ri, flag = case
+    _, kind, si, ri, flag = case[:5]
+    stale = len(case) > 5 and case[5] == "stale"
     w = World()
     env = w.env
     viol: List[Dict[str, Any]] = []
@@ -1055,13 +1110,24 @@ def evaluate_twophase_case(case) -> Tuple[List[Dict[str, Any]], Any, bool]:
         url, method, headers, content = w.request_parts(kind, si, ri, flag, "valid")
         w.a1.observe = True
         flow = env.new_flow(url, method, content, headers, fid="tp-flow")
+        if stale:
+            # a replayed flow: its state still carries the attribution of an earlier hop, which is no longer what the URL
+            # resolves to (other cap / other session+region; for the temporary cap: consumed by its first use -> nothing)
+            from hippolyzer.lib.proxy.caps import SerializedCapData
+            flow.metadata["cap_data_ser"] = SerializedCapData(
+                cap_name="StaleCapFromEarlierHop", region_addr=str(REGION_ADDRS[0]), session_id=str(session_uuid(0, 1)),
+                base_url="http://stale.test/cap/old", type="TEMPORARY")
+            flow.is_replay = "request"
+            if kind == "tempuploader":
+                env.sm.resolve_cap(url)          # first use consumes the temporary cap
+                kind = "none"
         env.mitm_request(flow)
         env.pump()
         cbs = [i for i in env.take_to_proxy() if i[0] == "callback"]
         if len(cbs) != 1:
             return [{"clause": "handback-immediate", "site": "pump_proxy_event[request]:twophase",
                      "detail": f"{kind}: {len(cbs)} callbacks"}], ("twophase-broken",), False
-        what = f"{kind}/s{si}r{ri}/{flag}"
+        what = f"{kind}/s{si}r{ri}/{flag}" + ("/stale incoming cap_data_ser" if stale else "")
         check_routing(viol, cbs[0], expected_routing(w, kind, si, ri, flag, "request"), what, "request")
         env.apply_callback(flow, cbs[0])
         if flow.response is None:
@@ -1253,6 +1319,12 @@ def cases_for(tier: str):
         for wt in WAITERS:
             for b in ("ignore", "take_later1", "handled"):
                 cases.append(("pump",) + fl + ((wt,), b, "ignore"))
+    # stage 1e: waiters that timed out / were cancelled / were satisfied earlier must not own (or swallow) later flows
+    for fl in flows:
+        if fl[0] != "response":
+            continue
+        for dw in DEAD_WAITERS:
+            cases.append(("pump",) + fl + ((dw,), "ignore", "ignore"))
     # stage 2a: pairs of faults x {ignore, deferred release}
     for fl in wide:
         for fa in pairs:
@@ -1283,6 +1355,9 @@ def cases_for(tier: str):
             for ri in (0, 1):
                 for flag in FLAGS:
                     cases.append(("twophase", kind, si, ri, flag))
+    for kind in ("none", "normal", "eq", "proxyonly", "tempuploader"):
+        for flag in FLAGS:
+            cases.append(("twophase", kind, 1, 1, flag, "stale"))
     # copy + replay with the real proxy-side pump in the loop
     for ev_ in ("request", "response"):
         for kind in KINDS:
@@ -1328,7 +1403,16 @@ def _evaluate(case) -> Tuple[List[Dict[str, Any]], Any, bool]:
 def _worker(chunk):
     part = Part()
     for case in chunk:
-        viol, outcome, nontrivial = evaluate(case)
+        try:
+            viol, outcome, nontrivial = evaluate(case)
+        except HarnessError:
+            raise
+        except Exception as e:  # noqa: the code under test handed the oracle something it cannot even decode
+            import traceback
+            where = traceback.extract_tb(e.__traceback__)[-1]
+            viol = [{"clause": "state-unreadable", "site": f"{case[0]}:{type(e).__name__}",
+                     "detail": f"{case}: evaluating the case raised {e!r} at {where.name}:{where.lineno}"}]
+            outcome, nontrivial = ("raised", case[0], type(e).__name__), True
         part.count("evaluations")
         part.count("evaluations_" + case[0])
         for v in viol:
